@@ -453,8 +453,9 @@ def perturb_words(words, kinds, rnd, k):
         if k == 0: continue
         if k >= 12:
             # free search phase: physically plausible magnitudes, keeping exact zeros of the model (vacuum etc.) most of the time
-            if d == 0 and rnd.random() < 0.8: nd = 0.0
-            elif rnd.random() < 0.25: nd = d
+            zkeep = 0.8 if (k % 2 == 0) else 0.15      # alternate: keep the model's exact zeros (vacuum etc.) / treat them as free
+            if d == 0 and rnd.random() < zkeep: nd = 0.0
+            elif d != 0 and rnd.random() < 0.25: nd = d
             else: nd = 10 ** rnd.uniform(-2, 2) * (rnd.choice([1, 1, -1]) if d >= 0 else rnd.choice([-1, -1, 1]))
         elif d == 0: nd = 0.0 if rnd.random() < 0.5 else rnd.choice([1e-3, 0.1, 0.5, 1., 2.5, 10.]) * rnd.choice([1, -1])
         else: nd = d * rnd.choice([1., 1., 0.5, 2., 1.1, 0.9, 1e-2, 1e2, 0.37, 3.3])
@@ -521,7 +522,8 @@ def run_engine_b(pid, tier, harnesses, ev, work, known_match=None, custom_replay
                     if v == 'reproduced': reproduced = payload; break
                     continue
             if not h.native_replay: continue
-            for k in range(150 if tier == 'quick' else 400):
+            if tried >= (1500 if tier == 'quick' else 6000): break     # replay budget per harness
+            for k in range(500 if tier == 'quick' else 1500):
                 ws = perturb_words(c['words'], c['kinds'], rnd, k)
                 try: verdict, outp = native_replay(work, h, ws, tag='b%d' % tried)
                 except Broken as b2: broken.append('%s: replay build failed: %s' % (h.name, b2)); verdict = 'x'; break
